@@ -198,9 +198,10 @@ def doBlock (s : St) (rest : List String) : St × String :=
       else if k == "sig:nofrom" then (parseTx inner).map (fun x => (noSender x, false))
       else if k.startsWith "sig:" then (parseTx inner).map (fun x => (x, k == "sig:ok")) else (parseTx t).map (fun x => (x, true))
     | [] => none
-  let txs := (splitTxs rest).map (fun t => match t with
-    | ["again", k] => (k.toNat?).bind (fun i => s.log[i]?)
-    | _ => parseSigned t)
+  -- `again k`: the k-th transaction of the history once more; an index behind the log names a transaction of this very block
+  let txs := (splitTxs rest).foldl (fun (acc : List (Option (Tx × Bool))) t => acc ++ [match t with
+    | ["again", k] => (k.toNat?).bind (fun i => if i < s.log.length then s.log[i]? else (acc[i - s.log.length]?).join)
+    | _ => parseSigned t]) []
   if txs.all Option.isSome then
     let (n', out) := execBlock s.cfg s.node (txs.filterMap id)
     let outside := (txs.filterMap id).map fun p => match p.1 with
